@@ -556,7 +556,10 @@ func (m *UDPMuxDefault) registerConnForAddress(conn *udpMuxedConn, addr netip.Ad
 	}
 
 	existing, ok := m.addressMap[addr]
-	if ok {
+	if ok && existing != conn {
+		// Only a previous owner loses the address: two writers of the same connection
+		// racing to register a new destination must not erase it from their own list,
+		// or the binding could never be cleaned up again.
 		existing.removeAddress(addr)
 	}
 	m.addressMap[addr] = conn
